@@ -127,3 +127,72 @@ Proof.
   destruct (step _ _) as [core' out]. cbn [fst set_core w_sess].
   now rewrite lookup_update_other.
 Qed.
+
+(* ---- subscription traffic: the Ack first, then events, and events carry the id of their subscribe request ---- *)
+Definition is_subscribe (m : cmsg) : bool :=
+  match m with MSubscribe _ _ _ _ | MPSubscribe _ _ _ _ _ | MSubscribeLs _ _ => true | _ => false end.
+
+Lemma subscribe_no_crash s c m o :
+  is_subscribe m = true -> op_of c m = Some o -> o_res (snd (step s o)) <> RCrash.
+Proof.
+  destruct m; try discriminate; intros _ E; cbn in E; injection E as <-; cbn [step].
+  - unfold do_subscribe. destruct (match live with Some b => b | None => false end).
+    + discriminate.
+    + destruct (do_get s key); try discriminate. destruct (N.eqb code E_NoSuchValue); discriminate.
+  - unfold do_psubscribe. destruct (match live with Some b => b | None => false end); [discriminate|].
+    destruct (do_pget s pat); discriminate.
+  - unfold do_subscribe_ls. discriminate.
+Qed.
+
+(* whatever a subscribe request produces for its session starts with its one terminal answer (Ack or Err);
+   the snapshot and any other traffic come after it *)
+Theorem subscribe_answer_first w sn m s :
+  lookup_n sn (w_sess w) = Some s -> is_subscribe m = true ->
+  let out := snd (fst (handle w sn m)) in
+  out = [] \/ exists code rest, out = (sn, SAck (tid_of m)) :: rest \/ out = (sn, SErr (tid_of m) code []) :: rest.
+Proof.
+  intros Hs Hm. cbv zeta. unfold handle. rewrite Hs.
+  destruct m; try discriminate; cbv zeta; cbn [op_of];
+    repeat match goal with
+           | |- context [if ?b then _ else _] => destruct b eqn:?
+           | |- context [match ss_claims s with _ => _ end] => destruct (ss_claims s) eqn:?
+           | |- context [match auth_requirement ?m with _ => _ end] => destruct (auth_requirement m) as [[? ?]|] eqn:?
+           end; cbn [fst snd];
+    try (left; reflexivity);
+    try (right; eexists; eexists; right; reflexivity);
+    (match goal with |- context [step (w_core w) ?o0] =>
+         match type of Hm with is_subscribe ?mm = true =>
+           pose proof (subscribe_no_crash (w_core w) (cid_of sn) mm o0 Hm eq_refl) as Hnc end;
+         destruct (step (w_core w) o0) as [core' o] eqn:Est end);
+    cbn [fst snd] in *; unfold answer; cbn [tid_of];
+    destruct (o_res o) eqn:Er; cbn [map app]; try congruence;
+    try (right; exists 0%N; eexists; left; reflexivity);
+    try (right; eexists; eexists; right; reflexivity).
+Qed.
+
+(* every message routed for an event of a subscription instance goes to the session that subscribed and carries the
+   transaction id of its subscribe request; lock traffic carries the id of its acquire request *)
+Definition event_with_tid (t : N) (msg : smsg) : Prop :=
+  (exists ev, msg = SState t ev) \/ (exists p ev, msg = SPState t p ev) \/ (exists l, msg = SLsState t l).
+
+Theorem routed_event_id w o sn msg :
+  In (sn, msg) (route_events w o) ->
+  (exists inst t k, lookup_n inst (w_chan w) = Some (sn, t, k) /\ event_with_tid t msg) \/
+  (exists r t, lookup_n r (w_reqs w) = Some (sn, t) /\ (msg = SAck t \/ msg = SErr t E_LockAcquisitionCancelled [])).
+Proof.
+  unfold route_events, event_with_tid. intros H. apply in_app_or in H as [H|H]; [|apply in_app_or in H as [H|H]].
+  - left. apply in_flat_map in H as ([inst ev] & _ & H). cbn [fst snd] in H.
+    destruct (lookup_n inst (w_chan w)) as [[[s' t] k]|] eqn:E; [|contradiction].
+    destruct (sess_open w s'); [|contradiction].
+    exists inst, t, k.
+    destruct ev, k; cbn in H; try contradiction; destruct H as [H|[]]; injection H as <- <-; (split; [exact E|]).
+    all: first [ left; eexists; reflexivity | right; left; eexists; eexists; reflexivity ].
+  - left. apply in_flat_map in H as ([inst l] & _ & H). cbn [fst snd] in H.
+    destruct (lookup_n inst (w_chan w)) as [[[s' t] k]|] eqn:E; [|contradiction].
+    destruct (sess_open w s'); [|contradiction]. destruct H as [H|[]]. injection H as <- <-.
+    exists inst, t, k. split; [exact E|]. right. right. eexists. reflexivity.
+  - right.
+    apply in_app_or in H as [H|H]; apply in_flat_map in H as (r & _ & H);
+      destruct (lookup_n r (w_reqs w)) as [[s' t]|] eqn:E; try contradiction;
+      destruct (sess_open w s'); try contradiction; destruct H as [H|[]]; injection H as <- <-; exists r, t; (split; [exact E|]); auto.
+Qed.
